@@ -894,9 +894,6 @@ func (t *c03UDP) responses() ([]*refdns.Msg, [][]byte) {
 }
 func (t *c03UDP) close() { t.u.Close() }
 
-// seamIdle is the idle time-out of the stream listeners opened by the seams (scenarios that let long virtual time pass raise it)
-var seamIdle = 30 * time.Second
-
 var c03Seams = []c03Seam{
 	{"tcp", func(v *vRouter) c03Client {
 		return &c03TCP{v.tcpClient(v.newTCPServer(0, seamIdle), vClientV4, vLocalV4)}
